@@ -90,6 +90,27 @@ int vh_num(void)
 	free(a); free(b); free(x);
 	return 0;
     }
+    if (strcmp(op, "qrsolve2") == 0) {		/* num qrsolve2 m n o A B : _vnacommon_qr, then _vnacommon_qrsolve2 from its Q and R */
+	int m = (int)vh_parse_long(vh_tok[2]), n = (int)vh_parse_long(vh_tok[3]), o = (int)vh_parse_long(vh_tok[4]);
+	double complex *a, *b, *x, *q, *r;
+	int rank;
+	if (m < 0 || n < 0 || o < 0 || m > 64 || n > 64 || vh_ntok != 5 + 2 * m * n + 2 * m * o) return -1;
+	a = parse_cvec(5, m * n);
+	b = parse_cvec(5 + 2 * m * n, m * o);
+	x = malloc(sizeof(double complex) * (n * o + 1));
+	q = malloc(sizeof(double complex) * (m * m + 1));
+	r = malloc(sizeof(double complex) * (m * n + 1));
+	LIB(rank = _vnacommon_qr(a, q, r, m, n));
+	LIB(_vnacommon_qrsolve2(x, q, r, b, m, n, o));
+	vh_out("ok %d X", rank);
+	for (int i = 0; i < n * o; ++i) vh_out_complex(x[i]);
+	vh_out(" Q");
+	for (int i = 0; i < m * m; ++i) vh_out_complex(q[i]);
+	vh_out(" R");
+	for (int i = 0; i < m * n; ++i) vh_out_complex(r[i]);
+	free(a); free(b); free(x); free(q); free(r);
+	return 0;
+    }
     if (strcmp(op, "pvalue") == 0) {		/* num pvalue n x2 */
 	extern double vh_chisq_pvalue(int n, double x2);
 	int n = (int)vh_parse_long(vh_tok[2]);
@@ -124,7 +145,10 @@ int vh_num(void)
 	if (n < 1 || n > 256 || k < 0) return -1;
 	xs = parse_dvec(3, n + 1);
 	ys = parse_dvec(3 + n + 1, n + 1);
-	cf = calloc(n + 1, sizeof(double [3]));
+	cf = malloc((n + 1) * sizeof(double [3]));	/* every coefficient of the n segments is the callee's to write */
+#ifndef VH_MSAN
+	memset(cf, 0xff, (n + 1) * sizeof(double [3]));
+#endif
 	errno = 0;
 	LIB(rc = _vnacommon_spline_calc(n, xs, ys, cf));
 	if (rc != 0) {
